@@ -124,7 +124,11 @@ func (db *PreparedStmtDB) prepare(ctx context.Context, conn ConnPool, isTransact
 	if err != nil {
 		cacheStmt.prepareErr = err
 		db.Mux.Lock()
-		delete(db.Stmts, query)
+		// only evict our own entry: after a Reset, or when a non-transaction
+		// request replaced a transaction entry, the key belongs to someone else
+		if cur, ok := db.Stmts[query]; ok && cur == &cacheStmt {
+			delete(db.Stmts, query)
+		}
 		db.Mux.Unlock()
 		return Stmt{}, err
 	}
@@ -165,7 +169,10 @@ func (db *PreparedStmtDB) ExecContext(ctx context.Context, query string, args ..
 			db.Mux.Lock()
 			defer db.Mux.Unlock()
 			go stmt.Close()
-			delete(db.Stmts, query)
+			// evict only the statement that failed, not a newer entry under the same key
+			if cur, ok := db.Stmts[query]; ok && cur.Stmt == stmt.Stmt {
+				delete(db.Stmts, query)
+			}
 		}
 	}
 	return result, err
@@ -180,7 +187,10 @@ func (db *PreparedStmtDB) QueryContext(ctx context.Context, query string, args .
 			defer db.Mux.Unlock()
 
 			go stmt.Close()
-			delete(db.Stmts, query)
+			// evict only the statement that failed, not a newer entry under the same key
+			if cur, ok := db.Stmts[query]; ok && cur.Stmt == stmt.Stmt {
+				delete(db.Stmts, query)
+			}
 		}
 	}
 	return rows, err
@@ -234,7 +244,10 @@ func (tx *PreparedStmtTX) ExecContext(ctx context.Context, query string, args ..
 			defer tx.PreparedStmtDB.Mux.Unlock()
 
 			go stmt.Close()
-			delete(tx.PreparedStmtDB.Stmts, query)
+			// evict only the statement that failed, not a newer entry under the same key
+			if cur, ok := tx.PreparedStmtDB.Stmts[query]; ok && cur.Stmt == stmt.Stmt {
+				delete(tx.PreparedStmtDB.Stmts, query)
+			}
 		}
 	}
 	return result, err
@@ -249,7 +262,10 @@ func (tx *PreparedStmtTX) QueryContext(ctx context.Context, query string, args .
 			defer tx.PreparedStmtDB.Mux.Unlock()
 
 			go stmt.Close()
-			delete(tx.PreparedStmtDB.Stmts, query)
+			// evict only the statement that failed, not a newer entry under the same key
+			if cur, ok := tx.PreparedStmtDB.Stmts[query]; ok && cur.Stmt == stmt.Stmt {
+				delete(tx.PreparedStmtDB.Stmts, query)
+			}
 		}
 	}
 	return rows, err
